@@ -449,6 +449,52 @@ theorem C18_e2e_hyp {es : List String} (h : keysRespectEqB c o es = true) : Keys
   · exact absurd hkey hne
   · exact ⟨h1 k, h2 k⟩
 
+/-- File sections ↔ covered files is a bijection: in a tree whose directories hold no name twice, a covered
+    file whose report can be generated is the path of exactly one file of the document, any other path of none. -/
+theorem C18_e2e_files_once (hwf : wfEntries tree) (q : List String) :
+    ((Covered (c.walk false) "" (toNodes tree) q ∧ ReadableT c g tree q) →
+      ((spdxFiles c g tree).map (·.path)).count q = 1) ∧
+    (¬ (Covered (c.walk false) "" (toNodes tree) q ∧ ReadableT c g tree q) →
+      ((spdxFiles c g tree).map (·.path)).count q = 0) := by
+  have hiff : q ∈ (spdxFiles c g tree).map (·.path) ↔
+      (Covered (c.walk false) "" (toNodes tree) q ∧ ReadableT c g tree q) := by
+    rw [mem_spdxFiles_paths, ReportedT, C01.C01_e2e_covered]
+  rw [(spdxFiles_paths_nodup hwf).count]
+  constructor
+  · intro h; rw [if_pos (hiff.mpr h)]
+  · intro h; rw [if_neg (fun hm => h (hiff.mp hm))]
+
+/-- ... and distinct files have distinct `FileName`s (names non-empty and slash-free, as on any file
+    system), hence — `C18_ids_distinct` — distinct SPDXIDs when sha1 answers with 40 characters and md5 is
+    injective on the finite set `{name ++ checksum}` of this project. -/
+theorem C18_e2e_ids_distinct (hwf : wfEntries tree) (hgood : ∀ q, CoveredT c tree q → goodNames q)
+    (hlen : ∀ q, CoveredT c tree q → (o.sha1 (contentAt tree q)).length = chkLen)
+    (hinj : injOn o.md5 ((spdxInputs c o g tree).map fun f => f.name ++ f.chk) = true) :
+    ((spdxFiles c g tree).map fun f => spdxName f.path).Nodup ∧
+    ((spdxReps c o add g tree).map (·.spdxId)).Nodup := by
+  have hcov : ∀ f ∈ spdxFiles c g tree, CoveredT c tree f.path := by
+    intro f hf
+    obtain ⟨q, ⟨hc, _⟩, rfl⟩ := mem_spdxFiles.mp hf
+    exact hc
+  have hnames : ((spdxFiles c g tree).map fun f => spdxName f.path).Nodup := by
+    have h0 := spdxFiles_paths_nodup (c := c) (g := g) hwf
+    rw [List.nodup_iff_pairwise_ne, List.pairwise_map] at h0 ⊢
+    refine h0.imp_of_mem ?_
+    intro a b ha hb hne heq
+    apply hne
+    have hpa : a.path ≠ [] := by
+      have := (C01.C01_e2e_covered a.path).mp (hcov a ha)
+      obtain ⟨_, _, hne', _⟩ := this
+      exact hne'
+    exact spdxName_inj hpa (hgood _ (hcov a ha)) (hgood _ (hcov b hb)) heq
+  refine ⟨hnames, ?_⟩
+  unfold spdxReps
+  apply C18_ids_distinct o.md5 add (spdxInputs c o g tree) ?_ ?_ hinj
+  · simp only [spdxInputs, List.all_map, List.all_eq_true, Function.comp, fileInputOf, beq_iff_eq]
+    intro f hf
+    exact hlen _ (hcov f hf)
+  · simpa [spdxInputs, List.map_map, Function.comp_def, fileInputOf] using hnames
+
 end E2E
 
 -- ---------------------------------------------------------------- non-vacuity
@@ -492,5 +538,14 @@ example (c : E2ECfg) (o : SpdxOracles) (p : DocParams) :
     spdxE2E spdxTable c o false p [("l", .symlink)] = .document (docText p [] []) := by
   simp [spdxE2E, spdxCmd, globalOf, hasDep5, subtree, elookup, tomlFiles, iterFiles, toNodes, ENode.toNode, walkList,
     walkNode, spdxInputs, spdxFiles, spdxLics, filesOf, coveredFiles, licFilesOf, findLicenses, findLoop]
+
+-- ... and the naming / well-formedness hypotheses of the bijection statements
+example : goodNames ["a b", "x.py"] := by
+  intro s hs
+  simp only [List.mem_cons, List.mem_nil_iff, or_false] at hs
+  rcases hs with rfl | rfl <;> decide
+example : ¬ goodNames ["a/b"] := by
+  intro h; exact (h "a/b" (by simp)).2 (by decide)
+example : wfEntries [("a.py", .file [35]), ("d", .dir [("a.py", .file [])])] := by simp [wfEntries, wfNode]
 
 end C18
